@@ -259,6 +259,12 @@ def run_check(pid, tier, seed):
         else:
             obs2.append(ob)
     obs = obs2
+    only = os.environ.get('SX_ONLY')          # development aid: run a subset of the obligations (never in MANIFEST commands)
+    if only:
+        for ob in obs:
+            if only not in ob.name:
+                skipped.append({'obligation': ob.name, 'reason': 'SX_ONLY=%s set for this run' % only})
+        obs = [ob for ob in obs if only in ob.name]
     dump_dir = os.path.join(OUT, 'smt-dump', pid)
     import shutil as _sh
     _sh.rmtree(dump_dir, ignore_errors=True)
